@@ -24,6 +24,8 @@ def main(argv=None):
         obls = m.obligations()
         if a.only:
             obls = [o for o in obls if a.only in o.id]
+            # partial (debugging) runs never overwrite the evidence of a full run
+            os.environ.setdefault("VT_EVIDENCE_DIR", "/tmp/vt_partial_evidence")
         return core.run_property(a.prop, obls, a.tier, m.META)
     if a.cmd == "replay":
         return subprocess.call([core.PY, a.path], env=core._env())
